@@ -851,3 +851,15 @@ Definition monitor_r (c : rcase) : list string :=
   match got with b0 :: br => nodup string_dec (mon_run_r [] [] hs b0 br) | [] => ["C14:empty-trace"] end.
 Definition monitor_r_fails (cs : list rcase) : list (nat * string) :=
   flat_map (fun ic : nat * rcase => map (fun sg => (fst ic, sg)) (monitor_r (snd ic))) (number_from 0 cs).
+
+(* ---------- the end of a term: once RaftCluster.Stop has returned nothing of the stopped term writes a store record any more ----------
+   (the next term - this member again, or another member on the same storage - is the only writer: this is what lets "stored = served after
+   every successful change" and the one-way lifecycle hold across leader changes).  Observed: the background check of the term was inside its
+   Tombstone write (a slow etcd) when Stop was called; did Stop return while that write was still in flight?  And the final state. *)
+Definition tcase := (bool * bool * obs)%type.   (* the scenario materialised, Stop returned while the write was in flight, final observation *)
+Definition monitor_t (c : tcase) : list string :=
+  let '(ok, early, fin) := c in
+  ((if ok && early then ["C14:stopped-term-still-writing-store-records"] else []) ++
+   (if list_eqb entry_proj_eqb (o_served fin) (o_stored fin) then [] else ["C14:stored-differs-from-served-after-the-term-ended"]))%list.
+Definition monitor_t_fails (cs : list tcase) : list (nat * string) :=
+  flat_map (fun ic : nat * tcase => map (fun sg => (fst ic, sg)) (monitor_t (snd ic))) (number_from 0 cs).
